@@ -21,7 +21,7 @@ BUDGET = {
 ANCHORS = ["utils:lint"]
 
 CORRUPTIONS = ["no_type", "bad_type", "fanin_on_source", "second_driver", "bbout_second_load", "bbout_nonbuf_load", "dotted_name", "pin_deleted", "pin_retyped", "undriven_gate", "unloaded_node", "single_input", "fanin_on_x", "fanin_on_bbout", "undriven_pin", "pin_direction_swapped", "two_dots_known_instance", "two_dots_unknown_instance", "stray_bbout_two_loads", "stray_bbout_gate_load"]
-PRODUCERS = ["verilog", "fast_verilog", "bench", "adder", "mux", "popcount", "add_subcircuit", "fill_blackbox", "limit_fanin", "limit_fanout", "ternary", "acyclic_unroll", "insert_registers", "unroll", "sequential_unroll", "sensitization_transform", "sensitivity_transform", "miter_tied", "copy", "relabel", "strip_blackboxes_then_nothing", "supergates", "remove_unloaded", "strip_io", "strip_inputs", "strip_outputs", "add_blackbox_list"]
+PRODUCERS = ["verilog", "fast_verilog", "bench", "adder", "mux", "popcount", "add_subcircuit", "fill_blackbox", "limit_fanin", "limit_fanout", "ternary", "acyclic_unroll", "insert_registers", "unroll", "sequential_unroll", "sensitization_transform", "sensitivity_transform", "miter_tied", "copy", "relabel", "strip_blackboxes_then_nothing", "supergates", "remove_unloaded", "strip_io", "strip_inputs", "strip_outputs", "add_blackbox_list", "bench_roundtrip", "verilog_roundtrip", "transform_pipeline"]
 
 
 def gen(rng, ctx):
@@ -76,6 +76,10 @@ def gen(rng, ctx):
             case["c"] = G.add_cycles(rng, case["c"], rng.randint(1, 2))
         if prod == "sequential_unroll" or prod == "strip_blackboxes_then_nothing":
             case["c"] = G.add_blackboxes(rng, case["c"], rng.randint(1, 2), bbdefs=[{"name": "ff", "inputs": ["clk", "d"], "outputs": ["q"]}])
+        if prod == "bench_roundtrip":
+            case["c"] = G.rand_circuit(rng, ni, rng.randint(2, 8), max_fanin=5, p_wide=0.3, p_const=0.6, p_const_output=0.3)
+        if prod == "verilog_roundtrip" and rng.random() < 0.5:
+            case["c"] = G.add_blackboxes(rng, case["c"], rng.randint(1, 2))
         case["c2"] = G.rand_circuit(rng, rng.randint(1, 2), rng.randint(1, 4), max_fanin=3, name="kid", in_prefix="a", gate_prefix="y", n_outputs=1, p_input_output=0.0)
         case["k"] = rng.randint(2, 4)
     return case
@@ -339,6 +343,36 @@ def produce(case, ctx):
         p = c.copy()
         p.remove_unloaded()
         return [p]
+    if prod == "bench_roundtrip":
+        # the writer's text must read back as a well-formed circuit (write -> read pipeline)
+        return [cg.io.bench_to_circuit(cg.io.circuit_to_bench(c), c.name)]
+    if prod == "verilog_roundtrip":
+        bbs = list({id(b): b for b in c.blackboxes.values()}.values())
+        text = cg.io.circuit_to_verilog(c)
+        return [cg.io.verilog_to_circuit(text, c.name, blackboxes=bbs), cg.io.verilog_to_circuit(text, c.name, blackboxes=bbs, fast=True)]
+    if prod == "transform_pipeline":
+        # the output of one transform is the input of the next; every stage must be well formed
+        stages = {
+            "limit_fanin": lambda x: cg.tx.limit_fanin(x, rng.randint(2, 3)),
+            "limit_fanout": lambda x: cg.tx.limit_fanout(x, rng.randint(2, 3)),
+            "ternary": lambda x: cg.tx.ternary(x)[0],
+            "copy": lambda x: x.copy(),
+            "relabel": lambda x: cg.tx.relabel(x, {sorted(n for n in x.nodes() if "." not in n)[0]: f"zz_first{len(out)}"}),
+            "miter": lambda x: cg.tx.miter(x),
+            "unroll": lambda x: cg.tx.unroll(x, 2, {})[0],
+            "bench": lambda x: cg.io.bench_to_circuit(cg.io.circuit_to_bench(x), x.name),
+            "verilog": lambda x: cg.io.verilog_to_circuit(cg.io.circuit_to_verilog(x), x.name),
+        }
+        out = []
+        cur = c
+        names = [rng.choice(sorted(stages)) for _ in range(rng.randint(2, 3))]
+        for nm_ in names:
+            if nm_ in ("bench", "miter") and not cur.inputs():
+                break
+            cur = stages[nm_](cur)
+            out.append(cur)
+            ctx.count(f"pipeline_stage:{nm_}")
+        return out
     raise ValueError(prod)
 
 
